@@ -22,7 +22,7 @@ RULE = ("query texts of five kinds: (a) random text of length 0-80 over the toke
         "rejected or was corrupted; signature = (kind, outcome class, innermost raising function)")
 ASSUMPTIONS = ["an exception whose traceback runs the body of a built-in is outside the statement (counted, not judged)",
                "a malformed text that the interpreter accepts and evaluates satisfies 'yields a value' (counted as lenient_accept)",
-               "termination is restated as: at most 5000 + 3000*len(text) activations of interpreter code; a 20 s wall-clock watchdog is inconclusive"]
+               "termination is restated as: at most 5000 + 3000*len(text) activations of interpreter code AND at most 15 s of processor time (ITIMER_VIRTUAL, not wall clock) per text; a 90 s wall-clock watchdog is inconclusive"]
 
 _S = {}
 ALPHABET = list("abcxyzRETURN_019 \"'()[]{},:=;\\.-#\n\t") + ["é", "日", "①", "٣", "²", "true", "nop", "query_bucket", "RETURN"]
@@ -30,6 +30,13 @@ ALPHABET = list("abcxyzRETURN_019 \"'()[]{},:=;\\.-#\n\t") + ["é", "日", "①"
 
 class Watchdog(BaseException):
     pass
+
+
+class CpuBudget(BaseException):
+    pass
+
+
+CPU_BUDGET_S = 15.0      # processor time of this process spent inside ONE call of aw_query.query (the texts are tens of thousands of characters at most)
 
 
 def plan(tier):
@@ -49,6 +56,11 @@ def setup(ctx):
         raise Watchdog()
 
     signal.signal(signal.SIGALRM, on_alarm)
+
+    def on_cpu(signum, frame):
+        raise CpuBudget()
+
+    signal.signal(signal.SIGVTALRM, on_cpu)
 
 
 def teardown(ctx):
@@ -241,17 +253,25 @@ def run_case(case, ctx):
     counter.n, counter.limit = 0, budget
     viols = []
     outcome, where = "value", "-"
-    signal.setitimer(signal.ITIMER_REAL, 20.0)
+    signal.setitimer(signal.ITIMER_REAL, 90.0)
+    signal.setitimer(signal.ITIMER_VIRTUAL, CPU_BUDGET_S)
     try:
         try:
             aw_query.query("q", text, start, end, ds)
         finally:
+            signal.setitimer(signal.ITIMER_VIRTUAL, 0)
             signal.setitimer(signal.ITIMER_REAL, 0)
             used = counter.n
             counter.limit = None
     except Watchdog:
         ctx.inconclusive += 1
         return [], dict(sig=(case["kind"], "watchdog"), nontrivial=False)
+    except CpuBudget:
+        # not a wall-clock verdict: the interpreter itself consumed that much processor time on one short text (work done
+        # inside C code, e.g. a regular-expression match, makes no interpreter activations and escapes the activation budget)
+        ctx.count("texts_run")
+        return [("processor-time-budget-exceeded", f"more than {CPU_BUDGET_S} s of processor time for a text of {len(text)} chars: {text!r:.200}")], \
+            dict(sig=(case["kind"], "cpu-budget"), nontrivial=True)
     except hooks.ActivationCounter.Exceeded:
         viols.append(("activation-budget-exceeded", f"more than {budget} interpreter activations for a text of {len(text)} chars: {text!r:.200}"))
         outcome = "budget"
